@@ -50,6 +50,8 @@ pub struct Tok {
     pub supply: i128,
     /// a probe token that answers metadata reads inconsistently (harness::probe_token::set_flaky)
     pub flaky: bool,
+    /// a probe token that answers a metadata getter with a value of another type
+    pub weird: bool,
 }
 
 #[derive(Clone, Debug, Hash, PartialEq, Eq)]
@@ -151,6 +153,7 @@ impl<'a> IExec<'a> {
                 released: 0,
                 supply: 40_000,
                 flaky: false,
+                weird: false,
             });
             tok_addr.push(a);
         }
@@ -179,6 +182,7 @@ impl<'a> IExec<'a> {
                 released: 0,
                 supply: 4000,
                 flaky: false,
+                weird: false,
             });
             tok_addr.push(a);
         }
